@@ -78,6 +78,14 @@ CHECKS.update({
             "Every call sequence up to the depth bound is executed on real model objects (states = canonical keys of parameters + data / latent values held by model.state); around every call the model, the caller's table / Data / settings are deep-snapshotted; non-fit calls must change nothing and leave nothing behind, a repeated call must repeat its answer, and the result of a call after any history must be bit-identical to the same call on a model holding the same parameters and no history (optimiser start point included).",
             "Depth 3 (quick) / 4 (thorough); tiny fits and personalizations; mixture model not covered; where a saved file is not bit-faithful (C12 territory) the reference gets the exact parameter tensors."),
 })
+CHECKS.update({
+    "C11": ("exploration", "exhaustive enumeration of algorithm x model x seed x logging-option product x prior activity in the interpreter, plus fresh interpreters under five hash seeds, comparing byte-level result digests with a reference run",
+            "Every accepted combination of print / save / plot periodicities, patient plots, sourcewise flag and output path, and every prior activity of the menu (consumed random numbers, other fits / personalizations first, reused settings object, dtype switches), is run for fit (three population samplers), the three personalizations and simulate on two model kinds and three seeds; the byte-level digest of the result must equal that of the plain reference run, also from freshly started interpreters under PYTHONHASHSEED 0..4; refused option combinations must be refused at settings time.",
+            "Tiny data, n_iter 6; the full logging product only for fit(Gibbs) in the thorough tier, 2-valued grid elsewhere."),
+    "C17": ("exploration", "exhaustive enumeration of model kind x cohort x identifier scheme x input form x algorithm x settings (iterations, burn-in, annealing, seed, optimiser) with recording spies on scipy.optimize.minimize, the individual sampler and the posterior summarisers",
+            "Every case of the grid is personalised by the real algorithms: keys = input identifiers (as strings) in input order, expected shapes, finite values; scipy_minimize: the objective re-evaluated from scratch at the returned point is not worse than at the recorded start; MCMC: the kept draws are bit-equal to the chain's draws after burn-in, their recorded attachment / regularity equal the from-scratch values, and the result is exactly their mean / the first draw of minimal loss per individual.",
+            "Cohorts of 1-3 individuals; n_burn_in == n_iter (no kept draw) is outside the property's domain; mixture model only with hand-written parameters."),
+})
 NOT_APPLICABLE = {}
 
 def main():
